@@ -151,9 +151,13 @@ def check(case):
                 elif err != should_err:
                     V.append((f'resolve:error-rule:{kind}', f'Wordnet(lexicon={sp!r}, lang={lang!r}) '
                               f'raised={err} expected raised={should_err}', None, one))
-                if ' ' not in sp:
-                    lx = wn.lexicons(lexicon=sp, lang=lang)
-                    if {smap[x.specifier()] for x in lx} != exp:
+                if ' ' not in sp or lang is None:
+                    try:
+                        lx = wn.lexicons(lexicon=sp, lang=lang)
+                    except wn.Error as exc:       # documented: an empty list, never an error
+                        lx = None
+                        V.append((f'lexicons():raises:{kind}', f'wn.lexicons(lexicon={sp!r}, lang={lang!r}) raised {exc!r}', None, one))
+                    if lx is not None and ({smap[x.specifier()] for x in lx} != exp or len(lx) != len(exp)):
                         V.append((f'lexicons():{kind}', f'wn.lexicons(lexicon={sp!r}, lang={lang!r}) -> '
                                   f'{[x.specifier() for x in lx]} expected {sorted(spec(i) for i in exp)}', None, one))
                 digs.append(runner.digest([sp, lang, sorted(got), err]))
